@@ -66,6 +66,22 @@ def check_try_from_iter(ctx, F, tag):
         ok = is_count and before
         detail = "capacity = %s; it is the iterator's own count: %s; measured before any item is taken: %s" % (tstr(cap)[:70], is_count, before)
     ctx.ob("C11.R5.iterator-route-capacity", b.name + tag, loc(b.raw["span"]), ok, "term-provenance+must-precede", detail)
+    # ... and the item taken first (the last position) is given back to the builder only if there was one: for the empty
+    # iterator nothing is set and the result is the empty vector (a try_set on the zero-capacity builder is an error)
+    from guards import facts_at, fact_nonzero
+    late = []
+    for bi, t in b.calls():
+        if callee_name(t) != "sparse_vector::SparseBuilder::try_set":
+            continue
+        arg = b.term_of_operand(t["args"][1])
+        if any(x[0] == "call" and x[4] == "std::iter::Iterator::next" for x in subterms(arg)):
+            continue                                    # an item of the loop over the remaining iterator
+        fs = facts_at(b, bi)
+        some = any(f[0] == "discr" and f[2] == 1 and any(x[0] == "call" and x[1].split("::")[-1] == "next_back" for x in subterms(f[1])) for f in fs)
+        nz = any(fact_nonzero(fs, x) for x in subterms(arg) if x[0] in ("var", "field", "downcast"))
+        late.append((loc(t["sp"]), some or nz))
+    ctx.ob("C11.R5.last-item-set-only-when-taken", b.name + tag, loc(b.raw["span"]), all(o for _, o in late) if late else None, "guard-dominance",
+           "try_set calls outside the loop (the item taken by next_back), each behind `next_back() is Some` / `universe != 0`: %s" % late)
 
 
 def check_config(ctx, F, tag):
@@ -75,6 +91,7 @@ def check_config(ctx, F, tag):
     import c05
     c05.check_tail_invariant(ctx, F, tag, prefix="C11.R4.unused-bits-zero")
     c05.check_grow_fill(ctx, F, tag, prefix="C11.R4")     # the by-runs route through RawVector::resize(_, true)
+    c05.check_word_count(ctx, F, tag, rule="C11.R4.word-count-follows-length")   # the pop route: no word (and no popped bit) survives past the end
     import c16
     c16.check_noop_and_flush(ctx, F, tag, prefix="C11.R3.builder")     # maximal runs: a zero-length piece does not split one; conversion flushes first
     c16.check_set_len_extends(ctx, F, tag, rule="C11.R3.builder.set-len-without-effect-does-not-flush")   # nor does a set_len that changes nothing
